@@ -82,60 +82,13 @@ theorem blobCommit_hash (P : Params) (r n a x : Nat) (mk : Bool) (content : Byte
 
 /-! ### content before index -/
 
-theorem convSave_mem (p : Pre) (inits : Bool) (n : Nat) (k : Contents) (n' : Nat) (b : Bytes)
-    (h : Step.isave p.r n' b ∈ convSave p inits n k) : b = k.convIndex := by
-  unfold convSave at h
-  split at h
-  · simp at h; exact h.2
-  · simp at h
-
-theorem ensureRepo_mem (p : Pre) (n : Nat) (k : Contents) (n' : Nat) (b : Bytes)
-    (h : Step.isave p.r n' b ∈ ensureRepo p n k) : b = k.initIndex := by
-  unfold ensureRepo repoInit at h
-  cases hm : p.mex <;> cases hD : p.D <;> cases hL : p.L <;> cases hI : p.I <;> simp_all
-
-theorem ensureRepo_no_rm (p : Pre) (n : Nat) (k : Contents) (q : Path) : Step.rm q ∉ ensureRepo p n k := by
-  unfold ensureRepo repoInit
-  cases hm : p.mex <;> cases hD : p.D <;> cases hL : p.L <;> cases hI : p.I <;> simp [hm, hD, hL, hI]
-
-theorem ensureRepo_blob (p : Pre) (n : Nat) (k : Contents) (r a x : Nat) : ¬ touches (ensureRepo p n k) (.blob r a x) := by
-  unfold ensureRepo
-  cases hm : p.mex
-  · simp only [Bool.false_eq_true, if_false]
-    intro h
-    rcases repoInit_touches p n k _ h with ⟨e, _⟩ | ⟨e, _⟩ <;> cases e
-  · simpa using touches_nil
-
-theorem tail_blob (p : Pre) (k : Contents) (inits : Bool) (subj haveUp rhad rAlgDir : Bool) (ra rh ma mh : Nat)
-    (hne : ¬ (ra = ma ∧ rh = mh)) :
-    ¬ touches (convSave p inits 2 k ++ [Step.isave p.r 3 k.index1] ++
-      (if subj then respSave p k haveUp rhad rAlgDir 4 5 ra rh k.index2 else [])) (.blob p.r ma mh) := by
-  intro h
-  rcases touches_append h with h | h
-  · rcases touches_append h with h | h
-    · rw [touches_iff] at h
-      unfold convSave at h
-      split at h <;> simp [Step.target] at h
-    · have := touches_singleton h; simp [Step.target] at this
-  · cases subj
-    · simp at h; exact touches_nil h
-    · simp only [if_true, respSave] at h
-      rcases touches_append h with h | h
-      · cases rhad
-        · simp only [Bool.false_eq_true, if_false] at h
-          have := blobPush_touches _ _ _ _ _ _ _ _ h
-          cases this; exact hne ⟨rfl, rfl⟩
-        · simp at h; exact touches_nil h
-      · have := touches_singleton h; simp [Step.target] at this
-
 /-- **Content before index** (manifest `PUT`, with or without a subject, including the first push into a new
-repository and the save of the converted annotation).  Let `lists` be any property of index bytes that holds of
-the two index documents the request saves but not of the initial or the merely re-annotated index ("the index
-lists the manifest").  If the index on disk lists the manifest only when its blob is complete before the request,
+repository and the save of the converted annotation).  Let `lists` be any property of index bytes that does not
+hold of the initial index a new repository gets ("the index lists the manifest").  If the index on disk lists the manifest only when its blob is complete before the request,
 then so it does at every crash point: the manifest blob is committed before the first index save that names it. -/
 theorem manifestPut_order (p : Pre) (k : Contents) (mhad mAlgDir subj rhad rAlgDir : Bool) (ma mh ra rh : Nat)
     (d : Disk) (lists : Bytes → Prop)
-    (hinit : ¬ lists k.initIndex) (hconv : ¬ lists k.convIndex)
+    (hinit : ¬ lists k.initIndex)
     (hd : ∀ b, d (.index p.r) = some b → lists b → d (.blob p.r ma mh) = some k.body)
     (hhad : mhad = true → d (.blob p.r ma mh) = some k.body)
     (hresp : ¬ (ra = ma ∧ rh = mh))
@@ -211,6 +164,21 @@ theorem crash_diskok (P : Params) (ss : List Step) (d : Disk) (hd : DiskOK P d) 
     (k : Nat) (cut : Option Nat) : DiskOK P (crashAt k cut (stepsOps ss) d) :=
   crash_steps_diskok ss hd hs (crash_of_crashAt k cut _ d)
 
+/-- the hypotheses of `crash_diskok` are satisfiable: toy codec (every number of index.json is a tagged entry, the
+digest of a blob is the sum of its bytes), the push of manifest `[7]` followed by the index save that names it -/
+def toyParams : Params :=
+  { H := fun _ b => b.sum, layoutOK := fun b => b == [1], parse := fun b => some (b.map fun h => ⟨0, h, true⟩) }
+
+example : DiskOK toyParams empty ∧
+    StepsOK toyParams (blobPush 0 true true 1 0 7 [7] ++ [Step.isave 0 2 [7]]) empty := by
+  refine ⟨by constructor <;> intros <;> simp_all [empty], ?_⟩
+  simp [StepsOK, StepOK, blobPush, openUpload, writeBody, Step.ops, FsOp.apply, Disk.set, empty, toyParams]
+
+/-- … and they are *not* satisfiable for the wrong order (index entry before the blob): the side condition of the
+index save fails because the blob it names is not on disk at that point -/
+example : ¬ StepsOK toyParams ([Step.isave 0 2 [7]] ++ blobPush 0 true true 1 0 7 [7]) empty := by
+  simp [StepsOK, StepOK, empty, toyParams]
+
 /-- **Nothing acknowledged earlier is touched.**  A file that is not the target of a step of the interrupted
 request - every blob, index and layout of every other repository, and every blob of the same repository other than
 the ones the request itself commits or removes - is at every crash point exactly what it was. -/
@@ -278,6 +246,10 @@ theorem manifestPut_touches (p : Pre) (k : Contents) (mhad mAlgDir subj rhad rAl
         · simp at h; exact absurd h touches_nil
       · have := touches_singleton h; simp [Step.target] at this
         exact Or.inr (Or.inl this.symm)
+
+example : ¬ touches (manifestPut { r := 0 } {} false true 0 6 true false true 0 7) (.blob 0 0 5) := by
+  intro h
+  rcases manifestPut_touches _ _ _ _ _ _ _ _ _ _ _ _ h with e | e | e | e <;> cases e
 
 /-- an interrupted manifest `PUT` leaves every other blob of the repository and every other repository intact -/
 theorem manifestPut_durable (p : Pre) (k : Contents) (mhad mAlgDir subj rhad rAlgDir : Bool) (ma mh ra rh : Nat)
@@ -417,7 +389,7 @@ end Witness
 
 /-- **F16, on the model.**  For a manifest with a subject the statement "the recovered state is the state before or
 the state after the request" is false: at crash point 10 (the first index save has been renamed and closed, the
-referrers response not yet written; any of the points 9 … 19 would do) a restarted server lists manifest 6 as
+referrers response not yet written; any of the points 9 … 18 would do) a restarted server lists manifest 6 as
 present while the referrers of its subject 5 do not list it - neither the state before (6 absent) nor the state after
 (6 listed as a referrer of 5).  The same prefix is replayed on the real code by `corpus/C09/f16.ops`. -/
 theorem request_atomic_subject_fails :
@@ -429,6 +401,9 @@ theorem request_atomic_subject_fails :
 example : Witness.observe Witness.before 5 = ([(0, 5)], [5], []) := by decide
 example : Witness.observe (crashAt 10 none (stepsOps Witness.req) Witness.before) 5 = ([(0, 5)], [5, 6], []) := by decide
 example : Witness.observe (runSteps Witness.req Witness.before) 5 = ([(0, 5)], [5, 6], [6]) := by decide
+example : Witness.observe (crashAt 18 none (stepsOps Witness.req) Witness.before) 5 = ([(0, 5)], [5, 6], []) := by decide
+example : Witness.observe (crashAt 19 none (stepsOps Witness.req) Witness.before) 5 = ([(0, 5)], [5, 6], [6]) := by decide
+example : Witness.observe (crashAt 8 none (stepsOps Witness.req) Witness.before) 5 = ([(0, 5)], [5], []) := by decide
 
 /-! ### repository initialisation, removal of an empty repository, collection -/
 
@@ -454,7 +429,7 @@ theorem repoInit_crash (p : Pre) (n : Nat) (c : Contents) (d : Disk) (k : Nat) (
     · right; rw [e]
       have : b' = c.initIndex := ensureRepo_mem { p with mex := false } n c n' b' (by simpa [ensureRepo, repoInit] using hm)
       rw [this]
-    · exfalso; exact ensureRepo_no_rm { p with mex := false } n c (.index p.r) (by simpa [ensureRepo, repoInit] using hm)
+    · exfalso; exact ensureRepo_no_rm { p with mex := false } n c (.index p.r) (by simp [repoInit] at hm)
   · apply crash_frame _ h _ rfl
     intro ht
     rcases repoInit_touches p n c _ ht with ⟨e, _⟩ | ⟨_, e⟩
@@ -473,20 +448,6 @@ and a repository that *does* load is not written at all -/
 theorem repoInit_loaded_untouched (p : Pre) (n : Nat) (c : Contents) (hD : p.D = true) (hL : p.L = true) (hI : p.I = true) :
     repoInit p n c = [] := by
   simp [repoInit, hD, hL, hI]
-
-theorem emptyRemoval_mem (cands : List Cand) (stop : Bool) (s : Step) (h : s ∈ emptyRemoval cands stop) :
-    ∃ q, s = .rm q ∧ q ∈ cands.map Prod.fst := by
-  induction cands with
-  | nil => simp [emptyRemoval] at h
-  | cons cd rest ih =>
-    obtain ⟨q, f⟩ := cd
-    simp only [emptyRemoval, List.mem_cons] at h
-    rcases h with h | h
-    · exact ⟨q, h, by simp⟩
-    · split at h
-      · simp at h
-      · obtain ⟨q', e, hm⟩ := ih h
-        exact ⟨q', e, by simp [hm]⟩
 
 /-- **Removal of an empty repository** (either variant: trying every entry, or stopping at the first that cannot be
 removed; any list of candidates).  At every crash point no file outside the candidate list is touched - in particular
